@@ -61,9 +61,78 @@ var atoms = []atom{
 
 var byClass [3][]int
 
+// nHand is the number of hand-written realisations; atoms[nHand:] are the generated
+// condition lists (every sequence of up to 3 when/unless clauses over 6 bodies), whose
+// class is computed by the clause-conjunction rule of the property statement.
+var nHand int
+
+type clauseBody struct {
+	text  string
+	class int // sat: evaluates to true, unsat: to false, erring: fails or is not a boolean
+}
+
+var clauseBodies = []clauseBody{
+	{"true", sat}, {"false", unsat}, {"context.a == 1", sat}, {"context.a == 2", unsat}, {"context.missing", erring}, {"context.a", erring},
+}
+
 func init() {
+	nHand = len(atoms)
 	for i, a := range atoms {
 		byClass[a.class] = append(byClass[a.class], i)
+	}
+	nb := len(clauseBodies) * 2
+	var rec func(text string, class int, decided bool, depth int)
+	rec = func(text string, class int, decided bool, depth int) {
+		if depth > 0 {
+			atoms = append(atoms, atom{class, "(principal, action, resource)" + text + ";"})
+		}
+		if depth == 3 {
+			return
+		}
+		for k := 0; k < nb; k++ {
+			b := clauseBodies[k/2]
+			when := k%2 == 0
+			kw := " unless { "
+			if when {
+				kw = " when { "
+			}
+			c, d := class, decided
+			if !d {
+				switch {
+				case b.class == erring:
+					c, d = erring, true
+				case (b.class == sat) != when:
+					c, d = unsat, true
+				}
+			}
+			rec(text+kw+b.text+" }", c, d, depth+1)
+		}
+	}
+	rec("", sat, false, 0)
+}
+
+// condFamily: every generated condition list, as a permit and as a forbid, next to one
+// opponent policy in both document orders.
+func condFamily() *core.Family {
+	opp := []item{{false, 0}, {true, 0}, {false, byClass[erring][0]}}
+	ng := len(atoms) - nHand
+	return &core.Family{
+		Name: "condition-lists-with-opponent",
+		Desc: fmt.Sprintf("every list of 1..3 when/unless clauses over the bodies {true, false, context.a == 1, context.a == 2, context.missing, context.a (not a boolean)} (%d policies) x {permit, forbid} x an opponent {satisfied permit, satisfied forbid, erroring permit} x both document orders", ng),
+		N:    int64(ng * 2 * len(opp) * 2),
+		Run: func(t *core.T, i int64) {
+			x := int(i)
+			first := x%2 == 0
+			x /= 2
+			o := opp[x%len(opp)]
+			x /= len(opp)
+			me := item{forbid: x%2 == 1, atom: nHand + x/2}
+			if first {
+				checkSeq(t, []item{me, o})
+			} else {
+				checkSeq(t, []item{o, me})
+			}
+		},
 	}
 }
 
@@ -321,7 +390,7 @@ func diffKind(want, got expect) string {
 func atomFamily() *core.Family {
 	return &core.Family{
 		Name: "atoms-alone",
-		Desc: fmt.Sprintf("%d realisations x {permit, forbid}, each alone", len(atoms)),
+		Desc: fmt.Sprintf("%d realisations (%d hand-written + every list of 1..3 when/unless clauses over 6 bodies) x {permit, forbid}, each alone", len(atoms), nHand),
 		N:    int64(2 * len(atoms)),
 		Run: func(t *core.T, i int64) {
 			checkSeq(t, []item{{forbid: i%2 == 1, atom: int(i / 2)}})
@@ -362,10 +431,10 @@ func seqFamily(maxLen int) *core.Family {
 }
 
 func pairFamily() *core.Family {
-	n := 2 * len(atoms)
+	n := 2 * nHand
 	return &core.Family{
 		Name: "realisation-pairs",
-		Desc: fmt.Sprintf("every ordered pair of (effect, realisation) atoms (%d^2)", n),
+		Desc: fmt.Sprintf("every ordered pair of (effect, hand-written realisation) atoms (%d^2)", n),
 		N:    int64(n * n),
 		Run: func(t *core.T, i int64) {
 			a, b := int(i)/n, int(i)%n
@@ -386,7 +455,7 @@ func Check() *core.Check {
 			if tier == "thorough" {
 				n = 8
 			}
-			return []*core.Family{atomFamily(), pairFamily(), seqFamily(n)}
+			return []*core.Family{atomFamily(), pairFamily(), condFamily(), seqFamily(n)}
 		},
 	}
 }
